@@ -347,6 +347,9 @@ impl<V: MapStored> CwMap<V> {
                 Ok(v) => action.ensures((V::m_get(old(store)@, k@),), Ok::<V, E>(v)) && final(store)@ == V::m_put(old(store)@, k@, v),
                 Err(e) => final(store)@ == old(store)@,
             }),
+            // no-abort / no-error direction: the only other error source is the action itself
+            (!(V::m_raw(old(store)@, k@) && V::m_get(old(store)@, k@) is None)
+                && (forall|x: Result<V, E>| action.ensures((V::m_get(old(store)@, k@),), x) ==> x is Ok)) ==> r is Ok,
     { unimplemented!() }
 }
 pub struct Item<V> { pub ns: &'static str, pub p: Ghost<Option<V>> }
